@@ -8,7 +8,8 @@ Only true external boundaries are replaced (DESIGN 1.4):
   removes the container directory (what ``RuntimeBase.finish`` ends with; the
   kernel-level teardown before it is the boundary);
 * ``treadmill.subproc.resolve`` (path lookup of executables),
-  ``treadmill.supervisor.control_svscan`` / ``control_service`` (s6).
+  ``treadmill.supervisor.control_svscan`` / ``control_service`` (s6);
+* ``os.fsync`` (durability barrier; no crash cuts in C13).
 
 Observers (signature-transparent wrappers, they call the original and return
 its result) record WHO created or moved a link:
@@ -95,6 +96,11 @@ def install():
 
     supervisor.control_svscan = control_svscan
     supervisor.control_service = control_service
+
+    # durability barrier of the kernel; C13 has no crash cuts, the listing the
+    # oracle reads is the same with or without it
+    import os
+    os.fsync = lambda _fd: None
 
     context.GLOBAL.cell = 'vfcell'
     context.GLOBAL.zk.url = 'zookeeper://vf@vf-fake:2181/treadmill/vfcell'
